@@ -52,6 +52,8 @@ var c14Lists = []struct {
 	{"Qual(w/y,Z), Id(c).Op(+).Lit(2)", func() []jen.Code { return []jen.Code{jen.Qual("w/y", "Z"), jen.Id("c").Op("+").Lit(2)} }},
 	{"nil, Id(a), Add(nil).Id(b)", func() []jen.Code { return []jen.Code{nil, jen.Id("a"), jen.Add(nil).Id("b")} }},
 	{"Id(a).Clone(), Add(Id(b))", func() []jen.Code { return []jen.Code{jen.Id("a").Clone(), jen.Add(jen.Id("b"))} }},
+	{"Id(a), Add()", func() []jen.Code { return []jen.Code{jen.Id("a"), jen.Add()} }},
+	{"&Statement{}", func() []jen.Code { return []jen.Code{&jen.Statement{}} }},
 	{"Dict{}, Id(a), Dict{Null(): Lit(1)}", func() []jen.Code { return []jen.Code{jen.Dict{}, jen.Id("a"), jen.Dict{jen.Null(): jen.Lit(1)}} }},
 }
 
@@ -124,6 +126,9 @@ func argDomain(t reflect.Type, variadic bool, method string, wild bool) []argVal
 			return reflect.ValueOf(func() interface{} { *count++; return 5 })
 		}}, {"func(){return \"s\"}", func(count *int) reflect.Value {
 			return reflect.ValueOf(func() interface{} { *count++; return "s" })
+		}}, {"func(){n++; return n}", func(count *int) reflect.Value {
+			n := 0
+			return reflect.ValueOf(func() interface{} { *count++; n++; return n })
 		}}}
 	case t == runeFuncType:
 		return []argVal{{"func(){return 'r'}", func(count *int) reflect.Value {
